@@ -486,6 +486,7 @@ def check(model: Model, report: Report) -> None:
     report.rule("R05.3", "position typing through the interpreted parser: test positions (top, under !, beside && / ||) and comparison operands x operand class")
     report.rule("R05.4", "unknown function name raises a JSONPathError at compile time")
     report.rule("R05.5", "singular_query() table over segment/selector shapes")
+    report.rule("R05.7", "exhaustive token grid with typed atoms (queries, literals, zero-argument calls of each result type): every sequence up to 3 (quick) / 4-5 (thorough) tokens is accepted iff it is grammatical and well-typed")
     report.rule("R05.6", "index and slice integers are checked against the environment's configured bounds (symbolic bounds, five regions each)")
     report.assumptions += ["A4: user function objects declare their types truthfully"]
     report.not_decided += ["nesting depth > 1 of calls/parentheses beyond the operand classes enumerated"]
@@ -493,4 +494,8 @@ def check(model: Model, report: Report) -> None:
     check_positions(model, report, "R05.3")
     check_singular(model, report, "R05.5")
     check_range(model, report, "R05.6")
+    from . import _tokgrid
+
+    _tokgrid.check_grid(model, report, "R05.7", want_valid=True)
+    _tokgrid.check_grid(model, report, "R05.7", want_valid=False)
     report.extra["explanation"] = "C05: check_well_typedness interpreted on 3 parameter types x 16 argument classes with probe signatures; parser interpreted on token shapes for each position x operand class; bounds decided with symbolic min/max."
